@@ -347,6 +347,80 @@ impl Grammar {
     }
 }
 
+impl Grammar {
+    /// minimal derivation depth of every nonterminal (for terminating random derivations)
+    fn min_depths(&self) -> Vec<usize> {
+        let n = self.names.len();
+        let mut d = vec![usize::MAX; n];
+        loop {
+            let mut changed = false;
+            for (l, rhs) in &self.prods {
+                let mut m = 0usize;
+                let mut ok = true;
+                for sy in rhs {
+                    if let Sym::N(x) = sy {
+                        if d[*x] == usize::MAX {
+                            ok = false;
+                            break;
+                        }
+                        m = m.max(d[*x]);
+                    }
+                }
+                if ok && m + 1 < d[*l] {
+                    d[*l] = m + 1;
+                    changed = true;
+                }
+            }
+            if !changed {
+                return d;
+            }
+        }
+    }
+
+    /// Random sentence of the grammar (token kinds), by random leftmost derivation with a
+    /// depth budget; every choice comes from the choice source.
+    pub fn random_sentence(&self, s: &mut crate::src::Src, budget: usize) -> Vec<K> {
+        let md = self.min_depths();
+        let mut out = Vec::new();
+        self.derive(self.start, budget, &md, s, &mut out);
+        out
+    }
+
+    fn derive(&self, nt: usize, budget: usize, md: &[usize], s: &mut crate::src::Src, out: &mut Vec<K>) {
+        // productions that can still terminate within the budget
+        let cands: Vec<usize> = self.by_lhs[nt]
+            .iter()
+            .copied()
+            .filter(|p| {
+                self.prods[*p].1.iter().all(|sy| match sy {
+                    Sym::T(_) => true,
+                    Sym::N(x) => md[*x] < budget.max(1),
+                })
+            })
+            .collect();
+        let p = if cands.is_empty() {
+            // out of budget: take the production with the smallest depth
+            *self.by_lhs[nt]
+                .iter()
+                .min_by_key(|p| {
+                    self.prods[**p].1.iter().map(|sy| match sy {
+                        Sym::T(_) => 0,
+                        Sym::N(x) => md[*x],
+                    }).max().unwrap_or(0)
+                })
+                .unwrap()
+        } else {
+            *s.pick(&cands)
+        };
+        for sy in self.prods[p].1.clone() {
+            match sy {
+                Sym::T(k) => out.push(k),
+                Sym::N(x) => self.derive(x, budget.saturating_sub(1), md, s, out),
+            }
+        }
+    }
+}
+
 thread_local! {
     static G: Grammar = grammar();
 }
